@@ -699,7 +699,12 @@ def run(repo, chk):
         chk.rule('C12.R7', 'character / string constants are emitted so that the assembler reads back the same bytes (shared with C13.B0)')
         from . import c13
         from ..report import Remap
-        c13.run(repo, Remap(chk, {'C13.B0': 'C12.R7'}))
+        c13.run(repo, Remap(chk, {'C13.B0': 'C12.R7', 'C13.B3': lambda c: 'C12.R7' if c.startswith('make_global[int') else None}))
+        # ... and an integer literal reaches the instruction stream with its value (modulo 2^(8w) when it does not fit): the
+        # IntValue arm of eval_expr interpreted on boundary values at every word size (shared with C10.X4)
+        from . import c10
+        from ..genfacts import GenFacts as _GF
+        c10._int_literal_arm(repo, Remap(chk, {'C10.X4': 'C12.R7'}), _GF(repo))
     chk.not_decided = ['that int()/chr()/str.encode compute the documented values (Python semantics trusted)',
                        'lex() on sources longer than the enumerated ones (whole-source behaviour is bounded: all sources of up to '
                        '3 characters - 4 in the thorough tier - over {a, 1, blank, +, =, /, <}, pairs of short lines, and '
